@@ -1304,7 +1304,7 @@ fn c11_finalize_new() {
 // @obligation the next request: the cookie value written by the real Serialize derive for an arbitrary (id, client map) is read back by the real IncomingSession::extract (real Deserialize derive) as exactly that id and map, and Session::new on it (or on no cookie) yields a state that satisfies INV and abstracts to "known, not looked at, these client values" (resp. "new, absent, empty") - the base case and the request-to-request link of the induction
 // @bounds id in {O, X}; client map over keys {a,b} x {null,false,true}; store arbitrary; with and without cookie
 // @functions WireClientState (derived Serialize + Deserialize), IncomingSession::extract, IncomingSession::from_parts, Session::new
-// @timeout 1500
+// @timeout 2700
 #[kani::proof]
 #[kani::unwind(5)]
 #[kani::stub(std::fmt::format, fmt_stub)]
